@@ -27,7 +27,7 @@ CLAIMED = {
   text='Real Memory.read/write/_new_packet_cb/_handle_chan_* and _ReadRequest/_WriteRequest through the real Crazyflie.send_packet against '
        'a byte-array device model: symbolic addresses (32 bit), lengths across every 20/25-byte chunk boundary, symbolic contents, duplicated, '
        'late and error replies, link drop after the k-th reply, queued and superseded writes, MemoryTester, and the deck memory layer (DeckMemoryManager query / DeckMemory read / write with optional failure callbacks present or absent); asserts exact data, untouched '
-       'bytes elsewhere, exactly one notification per request, write order, no lock or pending record left, follow-up requests served.',
+       'bytes elsewhere, exactly one notification per request, write order, no lock or pending record left, follow-up requests served. write_steps decides one acknowledgement from an arbitrary progress state with a progress callback (covers multi-kilobyte writes).',
   note='Bounds per harness in evidence (lengths <= 63/77 end-to-end quick, <= 100 thorough; step harness covers arbitrary 32-bit progress state). '
        'Context switches only at blocking calls; two OS threads inside write() are outside. Aliased writes (same id+address outstanding twice) '
        'have unspecified data, only liveness is required.',
@@ -51,7 +51,7 @@ CLAIMED = {
   text='RadioDriver.connect/parse_uri per URI shape with symbolic content (dongle id digits, channel digits, 1..10 hex address characters of either case, '
        'rate literals, rate-limit digits, serial-number ids) checked against the settings handed to the radio; scan_interface URIs parse back; '
        'the scheme guard of every driver is extracted from the current source, translated to a z3 regular expression and pairwise intersection '
-       'emptiness is decided for unbounded strings; get_link_driver/open_link with fake drivers whose connect outcome is symbolic.',
+       'emptiness is decided for unbounded strings; get_link_driver/open_link with fake drivers whose connect outcome is symbolic. Histories of init_drivers calls; serial-number URIs connected again after the dongle list changed (every explored history replayed on plain CPython as well, because the engine bypasses functools.lru_cache).',
   note='URI shape is enumerated (forked), content symbolic; string models for format/unhexlify/int(str,16) in vf/env/c20_env.py validated against CPython '
        'on every run; cflinkcpp and real USB enumeration outside; malformed-character harnesses enumerate 13 bad characters (labelled non-symbolic).',
   tech=TECH + '; z3 regular-expression emptiness queries generated from the source', ref='DESIGN.md §3 C20'),
@@ -60,14 +60,14 @@ CLAIMED = {
   text='The real _RadioDriverThread.run / _send_packet_safe / RadioDriver.send_packet / receive_packet run synchronously against a fake radio backed by '
        'a safelink peer model; per-transmission outcome {acked, uplink lost, ack lost} symbolic for k transmissions, uplink/downlink headers and payload bytes, '
        'submission times, start-up negotiation replies and the retry budget symbolic. Asserts exactly-once in-order delivery both ways with unchanged header/payload, '
-       'byte-identical retransmission, link error exactly at the R-th consecutive unacknowledged transmission, safelink iff the exact echo was seen.',
+       'byte-identical retransmission, link error exactly at the R-th consecutive unacknowledged transmission, safelink iff the exact echo was seen. Also: the shared dongle thread (_SharedRadio / _SharedRadioInstance: two links, answers attributed to their own transmission, solver-chosen expiring waits) and the USB-layer status byte decoding (Crazyradio.send_packet).',
   note='k <= 6 transmissions quick / 9 thorough, m <= 2/3 packets each way, payload <= 2 symbolic bytes. Peer model written from the safelink protocol (firmware not available offline). '
        'USB exceptions from the dongle, RadioManager sharing and rate-limit timing are outside.',
   tech=TECH, ref='DESIGN.md §3 C01'),
  'C03': dict(
   text='Inductive step of TocFetcher._new_packet_cb from an arbitrary fetcher state (table size up to 65535, requested index, reply ident/channel/type/name bytes symbolic) '
        'for both protocol generations and both tables, the info step, bounded downloads through the real dispatcher with duplicated and stale replies, element decoding over all '
-       'type codes and name bytes, extended-type (persistence) fetch; table equals the device table and the three lookups agree.',
+       'type codes and name bytes, extended-type (persistence) fetch; table equals the device table and the three lookups agree. Also the protocol-generation negotiation of PlatformService under duplicated replies.',
   note='Step harness covers every table size incl. the 255/256 boundary; end-to-end downloads are bounded to <= 2 (quick) / 3-4 (thorough) entries plus concrete 255/257-entry witnesses. '
        'Names that become dict keys are chosen by the solver from fixed sharing patterns; all byte values/lengths are decided in the decode harnesses. Device model written from the CRTP TOC protocol.',
   tech=TECH, ref='DESIGN.md §3 C03'),
@@ -81,7 +81,7 @@ CLAIMED = {
  'C10': dict(
   text='A real Crazyflie driven through solver-chosen histories over the enabled events {send request with expected reply, retry timer fires, packet arrives, close_link, link error, open_link} '
        'with virtual timers; expected-reply bytes, received header and data bytes and needs_resending symbolic. Oracle from the statement: one retransmission of the same bytes per expiry at the '
-       'request\'s own interval while unanswered, none after the answer, longest-prefix cancellation only, no timers on reliable links, nothing sent on a closed link, no transmission of a request in a later session.',
+       'request\'s own interval while unanswered, none after the answer, longest-prefix cancellation only, no timers on reliable links, nothing sent on a closed link, no transmission of a request in a later session. Also: packets through the real dispatcher with a port callback that re-issues the request (callback-send), two identical patterns pending and unanswered, and the real UsbDriver on a fake handle (nothing written after close, also when the close itself fails).',
   note='<= 2 (quick) / 3 (thorough) pending requests, 4-6 events, <= 3 sessions. _answer_patterns is an association list with == lookup inside the harness subclass (symbolic tuples as dict keys would be realised). '
        'Races between Timer.cancel() and an already running callback are outside.',
   tech=TECH, ref='DESIGN.md §3 C10'),
@@ -102,7 +102,7 @@ CLAIMED = {
        'fake driver chosen by the real get_link_driver; every thread body is a task of one deterministic scheduler - in two engines: restart-stepped bodies, and real OS threads of which only the baton holder runs (a task keeps its stack across blocking calls). The solver chooses the kind and position of one or two deviations from the '
        'nominal schedule (link error from the driver task, link error raised inside link.send_packet while _send_lock is held, close_link, duplicated or held-back reply, ping task first) and the '
        'whole deviation space is exhausted. Asserts the callback grammar per attempt, no lock left held, no thread dead, no application call blocked for ever (incl. SyncCrazyflie.open_link/close_link), '
-       'tables complete at connected, and that the same object connects again.',
+       'tables complete at connected, and that the same object connects again. The state promised by the statement is recorded at signalling time (tables complete at connected, a value for every device parameter at fully_connected); unsolicited value notifications from the firmware are one of the deviations.',
   note='RESTRICTED: context switches only at blocking calls (receive, queue get, lock acquire, sleep, join); free-running OS-thread interleavings and wall-clock bounds are outside solver-based checking here. '
        'All solver-chosen inputs are positions/kinds, so harnesses are labelled symbolic=False (exhaustive enumeration by the solver, real code under it). Tables: 1 log + 1-3 parameter entries; link without resend timers (C10).',
   tech='solver-enumerated deviation schedules over the real code (CrossHair as a library, z3 deciding feasibility of each fork); exhaustive within the stated bounds', ref='DESIGN.md §3 C02, §4'),
@@ -123,7 +123,7 @@ CLAIMED = {
  'C14': dict(
   text='EEPROM image validity <=> token and checksum over the version-selected range with all 21 bytes symbolic, single-byte corruption, write/read round trip (float32 trims bit-exact, 40-bit address); '
        '1-wire images with symbolic header, element contents and CRC bytes (CRC-32 modelled symbolically), round trip and validity; lighthouse geometry/calibration memory layout and YAML file objects; '
-       'parameter files; Poly4D, compressed trajectory, LED timing layouts; deck-memory info sections; loco anchor lists.',
+       'parameter files; Poly4D, compressed trajectory, LED timing layouts; deck-memory info sections; loco anchor lists. LighthouseConfigWriter re-configuring a device that already holds valid base stations (all others invalidated, one persist request).',
   note='Element ids/lengths and which float is symbolic are forked, contents symbolic; PyYAML and the file system are replaced by lossless stores; NaN/inf and unknown 1-wire element ids are outside.',
   tech=TECH, ref='DESIGN.md §3 C14'),
  'C15': dict(
